@@ -414,15 +414,60 @@ theorem dry_run_terminates (g : Graph) (hr : rankedB g = true) (hsym : edgeSymB 
   dry_run_one_block g (depth g) (rankedB_sound hr) (edgeSymB_sound hsym) w hw (classInjB_sound hinj) hroot hdry hflat
     ncls hcls store fuel hf
 
-/-- the general statement for lazily expanded graphs, NOT proved: `Explored g s` cannot be dropped from
-`reachable_loop_terminates` as it stands (`unexplored_orphan_spins` below).  What is missing: while flat nodes are
-unexplored the loop postpones cleanups by jumping back to the root without dropping anything; that phase ends because
-the root hands out its flat children fewest-picks-first, so an unexplored child (always a child of the root in parsed
-graphs, pick count 0 in reachable states) is picked after at most one round over the root's flat children and gets
-unrolled by the picking worker.  A proof needs the pick counters in the measure and an invariant about unexplored
-nodes (child of the root, never dropped, never picked); with it the bound would grow by a factor `(#flat + 1)²`.
-Proved instead: the hypothesis is preserved by every iteration (it only becomes "more true": `Explored.mono`) and holds
-for all states of pre-parsed graphs (`explored_of_noFlat`). -/
+open I2N.Trav.Term in
+/-- **Lazily expanded graphs** (no `Explored` hypothesis).  While flat nodes are unexplored the loop has one more kind
+of iteration without suspension: the "postpone the cleanup" jump back to the root, which drops nothing.  Static
+hypotheses `LazyOK g`: the children of a flat node are its composite tests (`setless_form in id`), every flat node is
+a child of the shared root, no node shares the class of a flat node.  State hypotheses `LState g d w s`: tables of the
+right size, path of the right shape starting at the root, root and flat nodes parsed, and no unexplored flat node has
+been dropped from the root for this worker.  Then the loop ends by itself within
+`lazyBound g P = ((2|nodes|·(K·P+1) + K·P)·2 + 2)·bound g` iterations, `K` the number of children of the root and
+`P = pickLevel g s` a level above the pick counters of the state (1 initially).
+Measure (`mu`): (2·#unexplored − [the last node of the path is unexplored], Σ_{flat children c of the root} (P − picks c),
+[#unexplored > 0 ∧ path ≠ [root]], `phi`) lexicographically: the expansion step unrolls an unexplored node at hand; a
+jump resets the path; a pick at the root takes a flat child that was picked no more often than any unexplored one
+(`pickChild_min`: the sort key is flat-first, fewest-picks-first), which uses up room below `P`; everything else
+lowers `phi`. -/
+theorem lazy_loop_terminates (g : Graph) (d : Nat → Nat) (hr : Ranked g d) (hsym : EdgeSym g) (hz : LazyOK g) (w : Nat)
+    (s : State) (evs : List Event) (h : LState g d w s) (fuel : Nat) (hf : lazyBound g (pickLevel g s) ≤ fuel) :
+    ∃ r, runLoopO g w (lazyBound g (pickLevel g s)) s evs = some r ∧ runLoop g w fuel s evs = r :=
+  runLoop_terminates_lazy g d hr hsym hz w s evs h fuel hf
+
+open I2N.Trav.Term in
+/-- every `.cont` iteration on a lazily expanded graph lowers `mu` and keeps the invariant (`P` fixed for the block) -/
+theorem lazy_iteration_lowers_measure (g : Graph) (d : Nat → Nat) (hr : Ranked g d) (hsym : EdgeSym g) (hz : LazyOK g)
+    (w P : Nat) (s : State) (h : LInv g d w P s) (hc : (iterL g s w).2.2 = .cont) :
+    mu g (iterL g s w).1 w P < mu g s w P ∧ LInv g d w P (iterL g s w).1 :=
+  iterL_lazy g d hr hsym hz w P s h hc
+
+open I2N.Trav.Term in
+/-- decidable hypotheses, initial state with the composite nodes hidden: the first block of every worker terminates
+within `lazyBound g 1` iterations -/
+theorem lazy_first_block_terminates (g : Graph) (hr : rankedB g = true) (hsym : edgeSymB g = true) (hz : lazyOKB g = true)
+    (ncls : Nat) (hcls : ∀ n, n < g.nodes.length → (g.node n).cls < ncls)
+    (store : List (String × List (String × String))) (hidden : List Nat)
+    (hroot : hidden.contains g.root = false) (hflat : hidden.all (fun x => !(g.node x).flat) = true)
+    (w : Nat) (hw : w < g.workers.length) (fuel : Nat) (hf : lazyBound g 1 ≤ fuel) :
+    ∃ r, runLoopO g w (lazyBound g 1) (initState g ncls store hidden) [] = some r ∧
+      runLoop g w fuel (initState g ncls store hidden) [] = r := by
+  have hflat' : ∀ f, (g.node f).flat = true → hidden.contains f = false := by
+    intro f hf
+    cases hc : hidden.contains f
+    · rfl
+    · rw [List.all_eq_true] at hflat
+      have := hflat f (List.contains_iff_mem.mp hc)
+      rw [hf] at this; cases this
+  have h := runLoop_terminates_lazy g (depth g) (rankedB_sound hr) (edgeSymB_sound hsym) (lazyOKB_sound hz) w
+    (initState g ncls store hidden) [] (lstate_init g _ ncls store hidden hcls hroot hflat' w hw)
+  rw [pickLevel_init] at h
+  exact h fuel hf
+
+/-- what is NOT proved for lazily expanded graphs: that `LState.avail` ("an unexplored flat node has not been dropped
+from the root for this worker") holds in every reachable state.  It holds initially (`lstate_init`) and is kept by
+every `.cont` iteration of the worker (`lazy_iteration_lowers_measure`); a worker drops a child of the root only when
+it pops that child, i.e. after the expansion step has unrolled it, but the proof for the steps that end in a
+suspension or continue after a test (`afterTraverse` in `resumeTest.continueAfter`) was not done.  `Explored` itself is
+monotone: -/
 theorem loop_terminates_partial (g : Graph) (s s' : State) (h : I2N.Trav.Term.Explored g s)
     (hh : ∀ x, x ∈ s'.hidden → x ∈ s.hidden) (hi : ∀ x, x ∈ s.incompatible → x ∈ s'.incompatible) :
     I2N.Trav.Term.Explored g s' := h.mono hh hi
@@ -466,6 +511,32 @@ def gDiaDry : Graph :=
 
 example := dry_run_terminates gDiaDry (by decide) (by decide) (by decide) 0 (by decide) (by decide) (by decide) (by decide)
   5 (by decide) [] 100000 (by decide)
+
+/-- a lazily expanded graph in the shape the harness builds: shared root, two flat nodes below it, per worker the
+composite tests `a` (child of the root, test of the first flat node) and `b` (child of `a`, test of the second flat
+node); the composite nodes are hidden initially -/
+def gLazy : Graph :=
+  { workers := [{ id := "net1", swarm := "localhost" }, { id := "net2", swarm := "localhost" }],
+    nodes := [{ cls := 0, owner := none, name := "root", pfx := "0", flat := true, sharedRoot := true,
+                cleanup := [(1, []), (2, []), (3, ["vm1"]), (5, ["vm1"])] },
+              { cls := 1, owner := none, name := "normal.nongui.a", pfx := "1", flat := true, setless := "a",
+                setup := [(0, [])], cleanup := [(3, []), (5, [])] },
+              { cls := 2, owner := none, name := "normal.nongui.b", pfx := "2", flat := true, setless := "b",
+                setup := [(0, [])], cleanup := [(4, []), (6, [])] },
+              { cls := 3, owner := some 0, name := "a.net1", pfx := "1", dryRun := true, setup := [(0, ["vm1"]), (1, [])],
+                cleanup := [(4, ["vm1"])] },
+              { cls := 4, owner := some 0, name := "b.net1", pfx := "2", dryRun := true, setup := [(3, ["vm1"]), (2, [])] },
+              { cls := 3, owner := some 1, name := "a.net2", pfx := "1", dryRun := true, setup := [(0, ["vm1"]), (1, [])],
+                cleanup := [(6, ["vm1"])] },
+              { cls := 4, owner := some 1, name := "b.net2", pfx := "2", dryRun := true, setup := [(5, ["vm1"]), (2, [])] }],
+    root := 0 }
+
+example := lazy_first_block_terminates gLazy (by decide) (by decide) (by decide) 5 (by decide) [] [3, 4, 5, 6]
+  (by decide) (by decide) 0 (by decide) 200000 (by decide)
+/-- the block of the first worker contains a postponement jump (from `[root, a-flat, a.net1]` straight to `[root]`, the
+ninth iteration, while the second flat node is unexplored) and ends with the exit after 24 iterations -/
+example : ((I2N.Trav.Term.tracePaths gLazy 0 9 (initState gLazy 5 [] [3, 4, 5, 6])).drop 7 = [[0, 1, 3], [0]]) ∧
+    (runLoop gLazy 0 24 (initState gLazy 5 [] [3, 4, 5, 6]) []).2 = [Event.exit "net1"] := by decide
 
 /-- Necessity of acyclicity (model level; real graphs are acyclic by construction): on a graph with a cycle `a ⇄ b`
 the worker pushes parents for ever — the loop does run out of fuel. -/
